@@ -481,6 +481,8 @@ func (in *Interp) nativeInvoke(recv Iface, name string, args []Value) (Value, bo
 		case "AssignableTo":
 			u := args[0].(Iface).v.(RType).t
 			return cbool(types.AssignableTo(x.t, u)), true
+		case "Comparable":
+			return cbool(types.Comparable(x.t)), true
 		case "String", "Name":
 			return Str(x.t.String()), true
 		}
